@@ -11,6 +11,8 @@ pub struct WfErr {
     pub site: &'static str,
     pub pos: usize,
     pub msg: String,
+    /// the violation is inside the replacement text of an internal entity referenced in content
+    pub in_entity: bool,
 }
 
 #[derive(Debug, Clone, PartialEq)]
@@ -46,7 +48,7 @@ const MAX_DEPTH: usize = 2000;
 
 impl<'a> P<'a> {
     fn err<T>(&self, site: &'static str, msg: &str) -> R<T> {
-        Err(WfErr { site, pos: self.i, msg: msg.to_string() })
+        Err(WfErr { site, pos: self.i, msg: msg.to_string(), in_entity: false })
     }
     fn peek(&self) -> Option<char> {
         self.c.get(self.i).copied()
@@ -908,10 +910,18 @@ impl<'a> P<'a> {
                 };
                 sub.content(stack).map_err(|mut e| {
                     e.pos = self.i;
+                    if !e.site.starts_with("WFC.") {
+                        e.in_entity = true;
+                    }
                     e
                 })?;
                 if sub.peek().is_some() {
-                    return self.err("WFC.ParsedEntityContent", "replacement text does not match content");
+                    return Err(WfErr {
+                        site: "WFC.ParsedEntityContent",
+                        pos: self.i,
+                        msg: "replacement text does not match content".into(),
+                        in_entity: true,
+                    });
                 }
                 stack.pop();
                 Ok(())
